@@ -1,7 +1,7 @@
 (* C14 — the oracle of Oracle.v accepts every run that is step-wise the cursor's. *)
 From Coq Require Import ZArith NArith List Bool Arith Lia.
 From Falcon.lib Require Import PyStr.
-From Falcon.C14 Require Import Spec Oracle Model ModelAsync ProofsDefs ProofsSync ProofsAsync.
+From Falcon.C14 Require Import Spec Oracle Model ModelAsync ProofsDefs ProofsSync ProofsUntil ProofsHistory ProofsAsync.
 Import ListNotations.
 Local Open Scope nat_scope.
 
@@ -68,4 +68,13 @@ Lemma oracle_sound_async_basic : forall cs F chunks ops,
 Proof.
   intros cs F chunks ops Hcs HF Hb. unfold oracle.
   apply first_bad_async_ok. apply a_refine_history_basic; assumption.
+Qed.
+
+Lemma oracle_sound_sync : forall cs maxlen data sched h,
+  0 < cs -> valid_hist cs 0 h = true ->
+  oracle true cs maxlen data h (map as_obs (sync_history cs maxlen data sched h)) = None.
+Proof.
+  intros cs maxlen data sched h Hcs Hv. unfold oracle.
+  rewrite (refine_history cs maxlen data sched h Hcs Hv).
+  apply first_bad_sync_results.
 Qed.
